@@ -45,6 +45,8 @@ def peer_frame(tok, masked):
         return wsref.frame(9, b"p", mask=m)
     if tok == "pong":
         return wsref.frame(10, b"", mask=m)
+    if tok == "closenc":
+        return wsref.frame(8, b"", mask=m)                       # a CLOSE frame without status code (RFC 6455 5.5.1 allows it)
     if tok.startswith("close"):
         code = int(tok[5:] or 1000)
         return wsref.frame(8, code.to_bytes(2, "big") + b"bye", mask=m)
@@ -78,6 +80,7 @@ class Scen:
         self.close_ret = None
         self.send_state = "idle"
         self.gates = {}
+        self.execno = {}
         self.seen_our_close = False
         self.peer_close_code = None
         self.peer_close_in_time = False
@@ -102,6 +105,8 @@ class Scen:
     def _ws_kwargs(self):
         o = self.opts
         kw = {"autoclose": o.get("autoclose", True), "autoping": o.get("autoping", True)}
+        if self.case.get("bigsend"):
+            kw["compress"] = 15 if self.side == "client" else True
         if o.get("heartbeat"):
             kw["heartbeat"] = HEARTBEAT
         return kw
@@ -112,7 +117,8 @@ class Scen:
         self.conn = AppConn(self.loop, app)
         self.out_tr = self.conn.st          # our side writes here
         self.peer_tr = self.conn.ct
-        req = (b"GET /ws HTTP/1.1\r\nHost: a\r\nUpgrade: websocket\r\nConnection: Upgrade\r\n"
+        ext = b"Sec-WebSocket-Extensions: permessage-deflate\r\n" if self.case.get("bigsend") else b""
+        req = (b"GET /ws HTTP/1.1\r\nHost: a\r\nUpgrade: websocket\r\nConnection: Upgrade\r\n" + ext +
                b"Sec-WebSocket-Key: " + KEY + b"\r\nSec-WebSocket-Version: 13\r\n\r\n")
         self.conn.send(req)
         self.conn.deliver_to_server()
@@ -146,7 +152,8 @@ class Scen:
         head = bytes(peer.buf)
         key = [l.split(b":", 1)[1].strip() for l in head.split(b"\r\n") if l.lower().startswith(b"sec-websocket-key")][0]
         accept = base64.b64encode(hashlib.sha1(key + GUID).digest())
-        peer.send(b"HTTP/1.1 101 Switching Protocols\r\nUpgrade: websocket\r\nConnection: upgrade\r\nSec-WebSocket-Accept: " + accept + b"\r\n\r\n")
+        ext = b"\r\nSec-WebSocket-Extensions: permessage-deflate" if self.case.get("bigsend") else b""
+        peer.send(b"HTTP/1.1 101 Switching Protocols\r\nUpgrade: websocket\r\nConnection: upgrade\r\nSec-WebSocket-Accept: " + accept + ext + b"\r\n\r\n")
         ct.deliver()
         self.loop.drain(200)
         self.client_sent_base = len(peer.buf)
@@ -227,7 +234,10 @@ class Scen:
         await self.gates["send"]
         self.send_state = "running"
         try:
-            await self.ws.send_str("data-from-app")
+            if self.case.get("bigsend"):
+                await self.ws.send_bytes(bytes(range(256)) * 120)      # > 16 KiB: compressed in the executor
+            else:
+                await self.ws.send_str("data-from-app")
             self.send_state = "sent"
         except asyncio.CancelledError:
             self.send_state = "cancelled"
@@ -267,8 +277,11 @@ class Scen:
             if not self.seen_our_close or self.echoed:
                 return
             self.echoed = True
-            tok = "close1000"
-        if tok.startswith("close") and self.peer_close_code is None:
+            tok = "closenc" if self.case.get("nocode") else "close1000"
+        if tok == "closenc" and self.peer_close_code is None:
+            self.peer_close_code = -1          # no code given: any of 0 / 1005 / 1000 is a fair report, 1006 is not
+            self.peer_close_in_time = quiet and self._listening(quiet) and not self.abnormal
+        elif tok.startswith("close") and self.peer_close_code is None:
             self.peer_close_code = int(tok[5:] or 1000)
             # "in time": our side was still open to it (close() had not given up or returned, transport open)
             # "in time": before our side began to close, or while our close() was genuinely blocked waiting for it
@@ -321,6 +334,8 @@ class Scen:
                     m.append(("peer.echo", lambda q=q: (self.events.pop(0), self._peer_send("echo", q))))
             else:
                 m.append((f"peer.{tok}", lambda tok=tok, q=q: (self.events.pop(0), self._peer_send(tok, q))))
+        for j in list(self.loop.exec_jobs)[:2]:
+            m.append((f"exec.{self.execno.setdefault(id(j), len(self.execno))}", lambda j=j: self.loop.complete_exec_job(j)))
         for name in ("close", "send"):
             g = self.gates.get(name)
             if g is not None and not g.done():
@@ -394,7 +409,10 @@ class Scen:
         if ws.closed and not cancelled and not timers and not self.raced:
             code = ws.close_code
             if self.peer_close_in_time and not self.dropped:
-                if code != self.peer_close_code:
+                if self.peer_close_code == -1:
+                    if code not in (0, 1000, 1005, None):
+                        self.P(f"wrong-close-code:{code}:clean-handshake-without-code", f"the peer's CLOSE frame carried no status code and met a settled, listening session, but close_code is {code}; received {self.received}")
+                elif code != self.peer_close_code:
                     self.P(f"wrong-close-code:{code}:clean-handshake", f"the peer's close frame (code {self.peer_close_code}) met a settled, listening session, but close_code is {code}; received {self.received}")
             elif self.abnormal_judged:
                 ok = {1006} | ({1002, 1007} if self.proto_error else set())
@@ -462,6 +480,15 @@ def cases(quick):
                     name = f"{side}/o{oi}/{pname}/{'closer' if closer else 'recv-closes'}"
                     out.append({"name": name, "side": side, "opts": opts, "peer": peer, "closer": closer, "sender": closer and pname in ("echo-close", "never-answers", "data-then-close"),
                                 "faults": ["drop", "cancel"]})
+        # a CLOSE frame without status code, as first move and as answer to our close
+        for oi in (0, 1):
+            out.append({"name": f"{side}/o{oi}/peer-closes-nocode/recv-closes", "side": side, "opts": opt_sets[oi], "peer": ["closenc"], "closer": False, "sender": False, "faults": ["drop", "cancel"]})
+            out.append({"name": f"{side}/o{oi}/peer-closes-nocode/closer", "side": side, "opts": opt_sets[oi], "peer": ["closenc"], "closer": True, "sender": False, "faults": ["drop", "cancel"]})
+            out.append({"name": f"{side}/o{oi}/echo-nocode/closer", "side": side, "opts": opt_sets[oi], "peer": ["echo"], "nocode": True, "closer": True, "sender": False, "faults": ["drop", "cancel"]})
+        # a large compressed message (deflated in the executor) in flight when close() is called
+        for pname in ("echo-close", "never-answers"):
+            out.append({"name": f"{side}/o0/{pname}/closer+bigsend", "side": side, "opts": opt_sets[0], "peer": peers[pname], "closer": True, "sender": True, "bigsend": True,
+                        "faults": ["cancel"]})
         # chatty peers that never complete the closing handshake: close() must still honour its timeout
         for opts in opt_sets[:2]:
             for tl_name, tl in (("chatty-8s", [(t, "text") for t in (8, 16, 24, 32, 40)]), ("ping-8s", [(t, "ping") for t in (8, 16, 24, 32)]),
